@@ -133,18 +133,40 @@ func genCase(t *rapid.T, scan bool) Case {
 	}
 	final := size
 
+	// Shape "approach": continuous, StartIndex beyond the tree at start-up, and a growth history that
+	// creeps towards StartIndex in one to three steps which each leave the tree short of it (or exactly
+	// at it) before a last step passes it. Every STH update in between must keep waiting, not hand out
+	// (or rewind to) anything below StartIndex.
+	approach := c.Continuous && weighted(t, "approach", 4, 1) == 1
+	if approach {
+		c.Start = c.Init + rapid.Int64Range(2, 40).Draw(t, "approachDist")
+		c.Steps = nil
+		at, size = 0, c.Init
+		n := rapid.IntRange(1, 3).Draw(t, "approachSteps")
+		for i := 0; i < n && size < c.Start; i++ {
+			at += spread(t, "approachGap", 1000, 300000)
+			size += rapid.Int64Range(1, c.Start-size).Draw(t, "approachGrow")
+			c.Steps = append(c.Steps, Step{AtMs: at, Size: size})
+		}
+		at += spread(t, "approachGap", 1000, 300000)
+		size = c.Start + rapid.Int64Range(1, maxGrow).Draw(t, "approachPass")
+		c.Steps = append(c.Steps, Step{AtMs: at, Size: size})
+		final = size
+	}
+
 	c.Batch = int(spread(t, "batch", 1, 50))
 	if weighted(t, "smallBatch", 2, 1) == 1 {
 		c.Batch = rapid.IntRange(1, 4).Draw(t, "batchSmall")
 	}
 	c.Fetchers = int(spread(t, "fetchers", 1, 6))
 
-	switch weighted(t, "startClass", 16, 10, 1, 2) {
-	case 0:
+	switch startClass := weighted(t, "startClass", 16, 10, 1, 2); {
+	case approach:
+	case startClass == 0:
 		c.Start = rapid.Int64Range(0, c.Init).Draw(t, "start")
-	case 1:
+	case startClass == 1:
 		c.Start = 0
-	case 2:
+	case startClass == 2:
 		c.Start = c.Init
 	default:
 		c.Start = c.Init + rapid.Int64Range(1, 25).Draw(t, "startBeyond")
@@ -238,7 +260,7 @@ func genCase(t *rapid.T, scan bool) Case {
 	}
 	if c.Continuous {
 		c.StopKind = rapid.SampledFrom(kinds).Draw(t, "stopKind")
-		if weighted(t, "stopLate", 1, 1) == 1 {
+		if weighted(t, "stopLate", 1, 1) == 1 || (approach && weighted(t, "approachLate", 1, 2) == 1) {
 			c.StopAtMs = -1
 		} else {
 			c.StopAtMs = genStopAt(t, at)
